@@ -199,8 +199,13 @@ fn run_case(cx: &CaseCtx, rep: &mut Report) {
 	}
 	// the target may already exist: an older conversion of the same tiles with longer payloads (same file names)
 	if !huge && rng.chance(0.3) {
+		// every second older version holds one tile more than the new one and is stored in another compression where the format can express one: a
+		// writer that reuses the old file instead of replacing it leaves that tile (and the old declaration) behind.
+		// Directory targets are left out: they keep such tiles, which is the known finding of C01.
+		let other_old = target != "directory" && (ts.fingerprint() >> 7) % 2 == 0;
+		let old_comp = if other_old { comp::ALL.iter().copied().find(|c| *c != out_comp && pairs_for(target).contains(&(format, *c))).unwrap_or(out_comp) } else { out_comp };
 		let mut old = ts.clone();
-		old.comp = out_comp;
+		old.comp = old_comp;
 		old.tiles = ts
 			.tiles
 			.iter()
@@ -208,12 +213,24 @@ fn run_case(cx: &CaseCtx, rep: &mut Report) {
 				let mut raw = comp::decompress(v, src_comp).unwrap_or_default();
 				raw.extend_from_slice(b" -- stale tail of an older, longer version -- ");
 				raw.extend(std::iter::repeat(b'#').take(300));
-				(model::transform(k, flip, swap), comp::compress(&raw, out_comp))
+				(model::transform(k, flip, swap), comp::compress(&raw, old_comp))
 			})
 			.collect();
+		if other_old {
+			let extra = old.tiles.keys().filter(|k| k.0 >= 1).map(|k| (k.0, k.1 ^ 1, k.2)).find(|k| !old.tiles.contains_key(k));
+			if let Some(k) = extra {
+				old.tiles.insert(k, comp::compress(b"tile of the older version only", old_comp));
+			}
+		}
 		let mut m = MemSource::new(&old);
 		if guard::block_on(write_to_filename(&mut m, out.to_str().unwrap())).is_ok() {
 			rep.count(&format!("conversions_into_an_existing_target_{target}"), 1);
+			if other_old {
+				rep.count("conversions_into_an_existing_target_with_one_more_tile", 1);
+			}
+			if old_comp != out_comp {
+				rep.count("conversions_into_an_existing_target_of_another_compression", 1);
+			}
 		}
 	}
 	let cp = TilesConverterParameters::new(opt.map(|c| c.to_core()), None, force, flip, swap);
